@@ -301,11 +301,40 @@ def certificate_c04(classes, methods, cov_of_vp):
     return problems
 
 
+def many_definitions_scripts(rng, n):
+    """methods with more definitions than a machine word has bits (the candidate sets are bit vectors): `ghost`
+    definitions on one class fill the first positions, and a definition registered after them is the only one
+    applicable to another class - around 64 and 128 definitions, uni- and bi-methods, the root abstract so that the
+    concrete-only flags of the report depend on the late definition too"""
+    out = []
+    for i in range(n):
+        pol = rng.choice(["plain", "fast", "map", "checked"])
+        ghosts = rng.choice([62, 63, 64, 65, 66, 127, 128, 129, 130])
+        bi = rng.random() < 0.4
+        late_first = rng.random() < 0.2            # sometimes the interesting definition comes first instead
+        lines = ["policy " + pol, "class 1 10 1 10", "class 2 11 0 11 10", "class 3 12 0 12 10", "class 4 13 0 13 12 10"]
+        if bi:
+            lines.append("method 0 VV 10 10")
+            late = ["def 0 100 12 12", "def 0 101 13 12"]
+            g = "ghostdefs 0 %d 11 11" % ghosts
+            calls = ["#full 0"] + ["call 0 %d %d" % (a_, b_) for a_ in (10, 11, 12, 13) for b_ in (10, 11, 12, 13)]
+        else:
+            lines.append("method 0 V 10")
+            late = ["def 0 100 12", "def 0 101 13"]
+            g = "ghostdefs 0 %d 11" % ghosts
+            calls = ["#full 0"] + ["call 0 %d" % a_ for a_ in (10, 11, 12, 13)]
+        lines += (late + [g]) if late_first else ([g] + late)
+        lines += ["update", "dump"] + calls
+        out.append(("many%d-%s-%d%s" % (i, pol, ghosts, "-bi" if bi else ""), lines))
+    return out
+
+
 def check_dispatch_family(ck, n_quick, n_thorough, what, **kw):
     n = tier_n(ck, n_quick, n_thorough)
     scripts = load_corpus(ck.prop) + load_corpus("dispatch")
     gscripts, stats = gen_dispatch_scripts(ck, n, **kw)
     scripts += gscripts
+    scripts += many_definitions_scripts(random.Random(repr((ck.seed, ck.prop, "many-definitions"))), tier_n(ck, 12, 60))
     impl_out, model_out, nbad = correspondence(ck, scripts, what)
     # the implementation against the specification oracle directly, on a slice
     k = max(50, len(gscripts) // 4)
@@ -707,6 +736,7 @@ def check_C17(ck):
     scripts = load_corpus("C17") + load_corpus("dispatch")
     gscripts, stats = gen_dispatch_scripts(ck, n, emphasis="abstract", callnext=False)
     scripts += gscripts
+    scripts += many_definitions_scripts(random.Random(repr((ck.seed, "C17", "many-definitions"))), tier_n(ck, 16, 80))
     state = {"compared": 0}
 
     def c17_oracle(bad, by_name, impl_out):
@@ -1029,6 +1059,28 @@ def check_C05(ck):
         name = "r%d-checked-%s-%d-%d" % (i, fam, a, b)
         scripts.append((name, lines))
         meta[name] = ("checked", fam, a, [sorted(s1), sorted(s2)])
+    # classes with several type ids (one class seen under different ids, e.g. one type_info per shared object): the
+    # search hashes every id of every class, and all of them must end up in buckets of their own
+    for i in range(tier_n(ck, 150, 2500)):
+        ncls = rng.randint(2, 30)
+        groups = gen.make_ids(rng, ncls, "proj")
+        # more aliases than make_ids draws by default, on some classes
+        groups = [g + ([8 * (g[0] // 8) + a for a in range(8) if 8 * (g[0] // 8) + a not in g][:rng.randint(0, 3)] if rng.random() < 0.4 else []) for g in groups]
+        lines = ["policy proj"]
+        h = 0
+        for g in groups:
+            for cid in g:
+                h += 1
+                lines.append("class %d %d 0 %d" % (h, cid, cid))
+        if rng.random() < 0.2:
+            lines.append("budget %d" % rng.choice([1, 2, 3, 5]))
+        lines += ["update", "dump"]
+        allids = sorted(x for g in groups for x in g)
+        for cid in allids:
+            lines += ["echo L%d:1" % cid, "lookup %d" % cid]
+        name = "m%d-proj-aliases-%d" % (i, len(allids))
+        scripts.append((name, lines))
+        meta[name] = ("proj", "aliases", len(allids), [allids])
     stats5 = {"installs": 0, "failures": 0, "unknown_rejected": 0, "sizes": {}}
 
     def evaluate(impl_out, report):
@@ -1063,6 +1115,12 @@ def check_C05(ck):
                 elif cur is not None:
                     cur.append(l)
             for regs, chunk_ in zip(history, chunks):
+                mu = re.match(r"update raised unknown_class (\d+)", chunk_[0])
+                if mu and int(mu.group(1)) in regs and first is None:
+                    # publish_vptrs looks every registered id up again: a hash that sends two of them to one bucket
+                    # makes the checked lookup reject one
+                    first = (name, lines, {"kind": "failing input: update reports a registered class as unknown (the installed hash is not perfect on the registered ids)",
+                                           "id": int(mu.group(1)), "implementation": chunk_[0]})
                 if chunk_[0] != "update ok":
                     continue
                 h, ctl, vsize, vp = parse_hash(chunk_)
